@@ -25,7 +25,7 @@
 From Coq Require Import ZArith List Bool.
 From Galene Require Import Model.TokenStore.
 From Galene Require Import Proofs.TokenStoreBasics Proofs.TokenStoreInv Proofs.TokenStoreProps
-  Proofs.TokenStoreCond Proofs.TokenStoreTheorems.
+  Proofs.TokenStoreCond Proofs.TokenStoreTheorems Proofs.TokenStoreApi.
 Import ListNotations.
 Open Scope Z_scope.
 
@@ -176,6 +176,39 @@ Theorem C16_atomic : forall s w k,
   fresh_view (fst (step s (OCrash w k false))) = fresh_view (fst (step s (ODo w))).
 Proof. exact atomic_fresh_view. Qed.
 Print Assumptions C16_atomic.
+
+(* ---------------- through the HTTP API ---------------- *)
+
+(* [api_step] is the model of the token handlers of webserver/api.go (GET,
+   list, POST, PUT, DELETE with If-Match / If-None-Match), run against the
+   real handlers by the `tokapi` driver.  Every request IS a history of store
+   operations (Get, then possibly one Update/Delete that carries the tag just
+   read), so all the theorems above apply to sequences and interleavings of
+   requests. *)
+Theorem C16_api_is_history : forall s q, fst (api_step s q) = run s (api_ops s q).
+Proof. exact api_is_history. Qed.
+Print Assumptions C16_api_is_history.
+
+(* in ANY state: a PUT / DELETE with If-Match: <tag> is answered 2xx only if
+   the token exists and <tag> is its current tag -- never when the token was
+   deleted after the tag was read *)
+Theorem C16_api_put_if_match : forall s g n e inm t st0 st,
+  is2xx (a_status (snd (api_step s (APut g n (Some (HTag e)) inm t st0 st)))) ->
+  o_res (snd (step s (OGet n))) = ROk /\ o_etag (snd (step s (OGet n))) = Some e.
+Proof. exact api_put_if_match. Qed.
+Print Assumptions C16_api_put_if_match.
+
+Theorem C16_api_delete_if_match : forall s g n e inm st,
+  is2xx (a_status (snd (api_step s (ADelete g n (Some (HTag e)) inm st)))) ->
+  o_res (snd (step s (OGet n))) = ROk /\ o_etag (snd (step s (OGet n))) = Some e.
+Proof. exact api_delete_if_match. Qed.
+Print Assumptions C16_api_delete_if_match.
+
+(* a request that is not answered 2xx leaves the token file as it was *)
+Theorem C16_api_refused_unchanged : forall s q,
+  ~ is2xx (a_status (snd (api_step s q))) -> s_file (fst (api_step s q)) = s_file s.
+Proof. exact api_refused_unchanged. Qed.
+Print Assumptions C16_api_refused_unchanged.
 
 (* ---------------- the hypotheses are needed ---------------- *)
 
